@@ -6,6 +6,7 @@ package main
 
 import (
 	"fmt"
+	"go/token"
 	"go/types"
 	"regexp"
 	"sort"
@@ -111,7 +112,48 @@ func (ci *condIndex) require(c *Ctx, rule, construct, pat string, passWhenTrue b
 	at := ci.atoms(pat, passWhenTrue)
 	g := evalGuardCut(c.P, ci.f, at, spec, nil, mergeEdges(bypass, deadEdges(ci.f)))
 	c.Evals += len(ci.conds)
+	if !g.OK && ci.requireSemantic(pat, passWhenTrue, spec, bypass) {
+		c.Holds(rule, fname(ci.f), construct, "assuming the test fails, no successful return is reachable (decided on values, not on the shape of the branch)", g.Pos)
+		return
+	}
 	c.Check(g.OK, rule, fname(ci.f), construct, g.Why, why+": "+g.Why, g.Pos)
+}
+
+// requireSemantic: the same requirement decided without looking for a branch of a particular shape: ASSUME every
+// boolean value whose canonical form is the test `pat` (or its negation) has the FAILING value — as a branch
+// condition, as an input of a boolean phi (a named condition) or under a negation — and ask whether a successful
+// return is still reachable from the entry once the legitimate bypass edges are removed. At least one such value must
+// exist (otherwise the test is simply absent).
+func (ci *condIndex) requireSemantic(pat string, passWhenTrue bool, spec resultSpec, bypass map[edge]bool) bool {
+	n := 0
+	cache := map[ssa.Value]string{}
+	saved := condEval
+	defer func() { condEval = saved }()
+	condEval = func(v ssa.Value) (bool, bool) {
+		if bt, isBasic := v.Type().Underlying().(*types.Basic); !isBasic || bt.Kind() != types.Bool {
+			return false, false
+		}
+		s, ok := cache[v]
+		if !ok {
+			at, isInstr := v.(ssa.Instruction)
+			if !isInstr {
+				return false, false
+			}
+			s = ci.be.plain(v, at).String()
+			cache[v] = s
+		}
+		if matchCond(s, pat) {
+			n++
+			return !passWhenTrue, true
+		}
+		if neg := negateCondString(s); neg != "" && matchCond(neg, pat) {
+			n++
+			return passWhenTrue, true
+		}
+		return false, false
+	}
+	r, _ := canReachSuccess(ci.f.Blocks[0], nil, successExits(ci.f, spec), mergeEdges(bypass, deadEdges(ci.f)))
+	return !r && n > 0
 }
 
 // dominatedByEdge: block b is only reachable after taking edge (x -> x.Succs[k]) of an If matching pat with the given truth
@@ -318,9 +360,53 @@ func c10IsValid(c *Ctx) {
 		"a certificate whose subject is not byte-equal to the issuer of the certificate below it must be rejected")
 	ci.require(c, rule, "time not before NotBefore", "call:(time.Time).Before(NOW,c.NotBefore)", false, spec, nil, "a certificate that is not yet valid at the verification time must be rejected")
 	ci.require(c, rule, "time not after NotAfter", "call:(time.Time).After(NOW,c.NotAfter)", false, spec, nil, "an expired certificate must be rejected")
+	semOK := false
+	{
+		// decided semantically as well: ASSUME the certificate has permitted DNS domains and matchNameConstraint says
+		// "no match" for every one of them — then isValid must not be able to return nil
+		nCalls := 0
+		saved := condEval
+		condEval = func(v ssa.Value) (bool, bool) {
+			if call, ok := v.(*ssa.Call); ok && calleeNamed(call, "matchNameConstraint") {
+				if matchCond(ci.be.plain(call, call).String(), `re:call:x509\.matchNameConstraint\(opts\.DNSName,idx\(field:PermittedDNSDomains\(c\),.*\)\)`) {
+					nCalls++
+					return false, true
+				}
+			}
+			if bo, ok := v.(*ssa.BinOp); ok {
+				isPD := func(x ssa.Value) bool {
+					return isLenOf(x, func(y ssa.Value) bool {
+						ld, ok := y.(*ssa.UnOp)
+						if !ok {
+							return false
+						}
+						fa, ok := ld.X.(*ssa.FieldAddr)
+						return ok && fieldName(fa.X.Type(), fa.Field) == "PermittedDNSDomains"
+					})
+				}
+				if k, isK := constInt(bo.Y); isK && k == 0 && isPD(bo.X) {
+					switch bo.Op {
+					case token.GTR, token.NEQ:
+						return true, true
+					case token.EQL, token.LEQ:
+						return false, true
+					}
+				}
+			}
+			return false, false
+		}
+		r, _ := canReachSuccess(f.Blocks[0], nil, successExits(f, spec), nil)
+		condEval = saved
+		semOK = !r && nCalls > 0
+		okPhi = okPhi || semOK
+	}
 	c.Check(okPhi, rule, fname(f), "permitted-domain flag computed by matchNameConstraint(opts.DNSName, each permitted domain)", "", "the flag tested for name constraints is not false-initialised and set only by matchNameConstraint over the certificate's permitted DNS domains", f.Pos())
-	ci.require(c, rule, "requested name within the permitted DNS domains", "PERMITTED_OK", true, spec, ci.edges("gt(len(c.PermittedDNSDomains),0x0)", false),
-		"a CA with permitted DNS domains must be rejected for a name outside all of them")
+	if semOK {
+		c.Holds(rule, fname(f), "requested name within the permitted DNS domains", "assuming no permitted domain matches, no successful return is reachable", f.Pos())
+	} else {
+		ci.require(c, rule, "requested name within the permitted DNS domains", "PERMITTED_OK", true, spec, ci.edges("gt(len(c.PermittedDNSDomains),0x0)", false),
+			"a CA with permitted DNS domains must be rejected for a name outside all of them")
+	}
 	notInter := ci.edges("eq(certType,0x1)", false)
 	ci.require(c, rule, "intermediates need valid basic constraints", "c.BasicConstraintsValid", true, spec, notInter, "an intermediate without basic constraints must be rejected")
 	ci.require(c, rule, "intermediates must be CAs", "c.IsCA", true, spec, notInter, "an intermediate that is not a CA must be rejected")
